@@ -62,3 +62,28 @@ Definition read_time (s : string) : stamp := TimeText.read (list_ascii_of_string
 Eval vm_compute in (line 10 3 1 0 (Some 3%nat) (Some 2%nat) "," (15 # 10) (-30004 # 10000) (1 # 16) (mk 1 2 2020 3 4 5)).
 Eval vm_compute in (read_fields "," (line 10 3 1 0 (Some 3%nat) (Some 2%nat) "," (15 # 10) (-30004 # 10000) (1 # 16) (mk 1 2 2020 3 4 5))).
 Eval vm_compute in (parse_fixed "    -3.000", parse_fixed "12.0625", parse_fixed "7").
+
+(* ---- the file: header / comment lines, one line per observation, every line ended by a newline ---- *)
+Definition nl : ascii := "010".
+Definition white (c : ascii) : bool :=
+  Ascii.eqb c " " || Ascii.eqb c "009" || Ascii.eqb c "010" || Ascii.eqb c "011" || Ascii.eqb c "012" || Ascii.eqb c "013".
+Fixpoint lstrip_w (s : string) : string := match s with String c r => if white c then lstrip_w r else s | "" => "" end.
+Fixpoint rstrip_w (s : string) : string :=
+  match s with "" => "" | String c r => match rstrip_w r with "" => if white c then "" else String c "" | r' => String c r' end end.
+Definition strip_w (s : string) : string := rstrip_w (lstrip_w s).          (* str.strip() *)
+
+Fixpoint concat_lines (ls : list string) : string := match ls with [] => "" | l :: r => l ++ String nl (concat_lines r) end.
+Definition write_file (hdr lines : list string) : string := concat_lines (List.app hdr lines).
+
+(* __readFromCsv: skip h lines; then  line = readline().strip(); while line: (a line starting with the comment character is skipped) ... *)
+Fixpoint read_lines (ls : list string) : list string :=
+  match ls with
+  | [] => []
+  | l :: r => match strip_w l with
+              | "" => []
+              | String c s' => if Ascii.eqb c "#" then read_lines r else String c s' :: read_lines r
+              end
+  end.
+Definition read_file (h : nat) (text : string) : list string := read_lines (skipn h (split nl text)).
+
+Eval vm_compute in read_file 1 (write_file ["#srid: ENU"; "#E;N"] ["1.000;2.000"; "-3.500;4.250"]).
